@@ -80,6 +80,8 @@ class Ctx:
         self.prop = prop
         self.tier = tier
         self.known = known if swallow else set()
+        self.collect = bool(os.environ.get("PV_COLLECT"))
+        self.collected: dict = {}
         self.evaluations = 0
         self.nt_hashes: set[str] = set()
         self.bulk_nt = 0
@@ -128,6 +130,12 @@ class Ctx:
     def fail(self, clause: str, disc: str, msg: str = "", cont: bool = False) -> None:
         """Report an oracle failure. Known findings are counted and swallowed."""
         key = (clause, disc)
+        if self.collect and key not in self.known:
+            ent = self.collected.setdefault(f"{clause}|{disc}", [0, self._case, msg[:600]])
+            ent[0] += 1
+            if cont:
+                return
+            raise KnownHit()
         if key in self.known:
             self.excluded[f"{clause}|{disc}"] += 1
             self.excluded_samples.setdefault(f"{clause}|{disc}", self._case)
@@ -207,6 +215,7 @@ def run_job(args: tuple) -> dict:
             )
         if viol is not None:
             case, v = viol
+            case = ddmin_ops(clause, case, v, prop, tier)
             out["violation"] = dict(
                 clause=v.clause, disc=v.disc, msg=v.msg[:2000], case=case,
                 clause_name=clause_name,
@@ -220,6 +229,7 @@ def run_job(args: tuple) -> dict:
             excluded_samples=ctx.excluded_samples,
             samples=ctx.samples,
             steps=ctx.steps,
+            collected=ctx.collected,
         )
     except BaseException as e:  # noqa: BLE001
         out["error"] = "".join(
@@ -227,6 +237,36 @@ def run_job(args: tuple) -> dict:
         )[-6000:]
     out["wall"] = time.time() - t0
     return out
+
+
+def ddmin_ops(clause, case, v, prop, tier, budget: int = 400):
+    """Greedy deletion of op records that are not needed for the same failure."""
+    if not (isinstance(case, dict) and isinstance(case.get("ops"), list)):
+        return case
+    import copy
+
+    def fails(c) -> bool:
+        try:
+            r = _run_case(clause, c, Ctx(prop, tier, set()))
+        except Exception:  # noqa: BLE001 - a different problem: keep the op
+            return False
+        return r is not None and r.key == v.key
+
+    cur = copy.deepcopy(case)
+    n_eval = 0
+    changed = True
+    while changed and n_eval < budget:
+        changed = False
+        i = len(cur["ops"]) - 1
+        while i >= 0 and n_eval < budget:
+            cand = dict(cur)
+            cand["ops"] = cur["ops"][:i] + cur["ops"][i + 1:]
+            n_eval += 1
+            if fails(cand):
+                cur = cand
+                changed = True
+            i -= 1
+    return cur
 
 
 def _run_hypothesis(prop, clause, ctx, tier, shard, nexamples, seed):
@@ -404,6 +444,24 @@ def run_property(prop: str, tier: str, only_clause: Optional[str] = None) -> int
         ) as ex:
             results = list(ex.map(run_job, jobs))
 
+    if os.environ.get("PV_COLLECT"):
+        allc: dict = {}
+        for r in results:
+            for k, (n, case, msg) in (r.get("collected") or {}).items():
+                ent = allc.setdefault(k, [0, case, msg, r["clause"]])
+                ent[0] += n
+                if len(canon(case)) < len(canon(ent[1])):
+                    ent[1], ent[2] = case, msg
+        out = {}
+        for k, (n, case, msg, cname) in sorted(allc.items(), key=lambda x: -x[1][0]):
+            cl, disc = k.split("|", 1)
+            clause = {c.name: c for c in mod.CLAUSES}[cname]
+            small = ddmin_ops(clause, case, Violation(cl, disc), prop, tier)
+            out[k] = dict(count=n, clause_name=cname, msg=msg, case=small)
+            print(f"COLLECTED {n:6d}  {k}\n          {msg[:300]}")
+        os.makedirs(os.path.join(env.VERIF_ROOT, "evidence"), exist_ok=True)
+        with open(os.path.join(env.VERIF_ROOT, "evidence", f"collected-{prop}.json"), "w") as f:
+            f.write(json.dumps(out, indent=1, default=_jd))
     errors = [r for r in results if r.get("error")]
     if errors:
         for r in errors[:3]:
